@@ -1440,7 +1440,14 @@ where
     }
 
     /// Run one step without fault injection. Any panic escaping hashbrown is a violation.
+    /// Under inconsistent Hash/Eq answers every violation is one of C05 (the other properties only
+    /// speak about lawful implementations).
     pub fn plain_step(&mut self, step: usize, op: &Op) -> Result<(), Violation> {
+        let lawful = self.lawful;
+        self.plain_step_inner(step, op).map_err(|v| if lawful || v.property == "C05" { v } else { Violation { property: "C05", kind: format!("chaos:{}", v.kind), ..v } })
+    }
+
+    fn plain_step_inner(&mut self, step: usize, op: &Op) -> Result<(), Violation> {
         alloc::begin_op();
         let before = Self::dump_of(&self.slots[self.cur].map);
         if self.lawful {
@@ -1677,8 +1684,10 @@ where
         world::with(|w| w.quiet = 0);
         return out;
     }
+    let chaos = case.h("chaos") != 0;
     let (mut out, v) = it.finish(steps);
-    out.violation = v;
+    // leaks / double drops at the end of a case with inconsistent Hash/Eq belong to C05
+    out.violation = v.map(|v| if chaos && v.property != "C05" { Violation { property: "C05", kind: format!("chaos:{}", v.kind), ..v } } else { v });
     out.steps = steps;
     out
 }
